@@ -472,6 +472,51 @@ def omit_defaulted(r, p, t, v, prob=50):
         return ("(", vs), ("(", ve)
     return v, v
 
+def union_positions(p, t, v, path=()):
+    """paths to every union value inside v (of type t) that the emitted Write reaches: through struct fields
+    that are listed and through list / set elements and map values."""
+    t = p.resolve(t)
+    k, x = v
+    out = []
+    if t.k in "LZ":
+        for j, it in enumerate(x): out += union_positions(p, t.a, it, path + (("i", j),))
+    elif t.k == "M":
+        for j, (a, b) in enumerate(x): out += union_positions(p, t.b, b, path + (("v", j),))
+    elif t.k == "S":
+        key = (t.file, t.name)
+        kind, fields = p.structs[key]
+        if kind == "u": out.append((path, key))
+        for (i, _, _, ty) in fields:
+            if i in x and not is_unset_default(p, key, i, x): out += union_positions(p, ty, x[i], path + (("f", i),))
+    return out
+
+def replace_at(v, path, new):
+    if not path: return new
+    (step, j), rest = path[0], path[1:]
+    k, x = v
+    if step == "i": return (k, [replace_at(it, rest, new) if n == j else it for n, it in enumerate(x)])
+    if step == "v": return (k, [(a, replace_at(b, rest, new)) if n == j else (a, b) for n, (a, b) in enumerate(x)])
+    return (k, {i: (replace_at(w, rest, new) if i == j else w) for i, w in x.items()})
+
+def bad_union_value(r, p, key, two=None):
+    """a value of union `key` with no field (or, when it has two fields, with two) set."""
+    kind, fields = p.structs[key]
+    if two is None: two = r.chance(50)
+    if two and len(fields) >= 2:
+        f1, f2 = r.shuffle(fields)[:2]
+        return ("(", {f1[0]: gen_set_val(r, p, key, f1[0], f1[3], 3), f2[0]: gen_set_val(r, p, key, f2[0], f2[3], 3)}), "2"
+    return ("(", {}), "0"
+
+def inject_bad_union(r, p, t, v, nested_only=True):
+    """v with ONE of its union sub-values replaced by an ill-formed one (0 or 2 fields set); returns
+    (value, description) or None when v contains no union (below the top level)."""
+    pos = [(pa, key) for (pa, key) in union_positions(p, t, v) if pa or not nested_only]
+    if not pos: return None
+    pa, key = r.pick(pos)
+    bad, cnt = bad_union_value(r, p, key)
+    where = "".join({"f": "field", "i": "elem", "v": "mapval"}[s] + "." for (s, _) in pa) or "top."
+    return replace_at(v, pa, bad), "union%s@%s" % (cnt, where.rstrip("."))
+
 def dump_val(v):
     """canonical value syntax (also what the runner prints after Read)."""
     k, x = v
@@ -631,6 +676,13 @@ def build_and_run(progs, jobs):
             for (f, n) in p.structs:
                 imports.add(f)
                 ctors.append('\t"%s/%s": func() thrift.TStruct { return %s.New%s() },' % (f, n, f, n))
+            # the emitted args / result structs of service methods (c02: written directly, like any struct-like)
+            for (f, n), svc in (p.services.items() if getattr(p, "args_ctors", False) else []):
+                imports.add(f)
+                for m in svc["methods"]:
+                    go = n[:1].upper() + n[1:] + m["name"][:1].upper() + m["name"][1:]
+                    ctors.append('\t"%s/%s_%s_args": func() thrift.TStruct { return %s.New%sArgs() },' % (f, n, m["name"], f, go))
+                    if not m["oneway"]: ctors.append('\t"%s/%s_%s_result": func() thrift.TStruct { return %s.New%sResult() },' % (f, n, m["name"], f, go))
         svc_entries, scope_entries = [], []
         for p in progs:
             for (f, n), svc in p.services.items():
